@@ -774,3 +774,177 @@ pub fn run_handle_count(seed: u64, runs: u64, budget_ms: u64, small: bool, shard
     shard.stat("trials", trials);
     shard.stat("concurrent_clone_drop_rounds", clones);
 }
+
+// ---------------------------------------------------------------------------------------------
+// mq-tight, mode "plain-payload": the same free-running traffic over one shared stream, but with a
+// payload type that has NO drop glue (plain data) and a hand-written Clone that reads the first
+// half, dawdles for a seeded number of spins, reads the second half and compares. Whether a type
+// needs dropping must not matter for C04: a consumer that is still copying a value out of a slot
+// must never see the producer's next lap in it.
+
+#[repr(C)]
+pub struct Plain {
+    a: u64,
+    pad: [u64; 6],
+    b: u64,
+}
+
+static PLAIN_TORN: AtomicU64 = AtomicU64::new(0);
+static PLAIN_CLONES: AtomicU64 = AtomicU64::new(0);
+static PLAIN_SLOW: AtomicU64 = AtomicU64::new(0);
+
+impl Plain {
+    fn new(id: u64) -> Plain {
+        Plain { a: id, pad: [id; 6], b: id }
+    }
+}
+
+impl Clone for Plain {
+    fn clone(&self) -> Plain {
+        // volatile: the two halves really are read at two different times
+        let a = unsafe { std::ptr::read_volatile(&self.a) };
+        let n = PLAIN_CLONES.fetch_add(1, std::sync::atomic::Ordering::Relaxed);
+        if n % 8 == 0 {
+            PLAIN_SLOW.fetch_add(1, std::sync::atomic::Ordering::Relaxed);
+            skew(200 + (n % 1900));
+            if n % 64 == 0 {
+                std::thread::yield_now();
+            }
+        }
+        let b = unsafe { std::ptr::read_volatile(&self.b) };
+        let mid = unsafe { std::ptr::read_volatile(&self.pad[3]) };
+        if a != b || a != mid {
+            PLAIN_TORN.fetch_add(1, SeqCst);
+        }
+        Plain { a, pad: [mid; 6], b }
+    }
+}
+
+pub fn run_plain(seed: u64, runs: u64, budget_ms: u64, small: bool, shard: &mut Shard) {
+    let t0 = Instant::now();
+    let mut rng = Rng::new(seed);
+    hist::set_enabled(false);
+    hooks::thread_begin(0, crate::conc::ROLE_MAIN, seed, Policy::None, &[]);
+    let mut run = 0;
+    while run < runs {
+        if budget_ms != 0 && t0.elapsed().as_millis() as u64 > budget_ms {
+            break;
+        }
+        let cap = *rng.pick(&[1u64, 2, 2, 4]);
+        let producers = 1 + rng.below(2) as u32;
+        let consumers = 2 + rng.below(3) as u32;
+        let millis = if small { 5 } else { 200 + rng.below(500) };
+        let cfgd = format!("plain-payload broadcast cap={} producers={} consumers-on-one-stream={} {}ms", cap, producers, consumers, millis);
+        let lost_before = hooks::SITE_HITS[site::R_CAS_LOST as usize].load(SeqCst) + hooks::SITE_HITS[site::R_PIN_LOST as usize].load(SeqCst);
+        let torn_before = PLAIN_TORN.load(SeqCst);
+        let sh = Arc::new(Sh {
+            go: AtomicBool::new(false),
+            stop: AtomicBool::new(false),
+            sent: AtomicU64::new(0),
+            received: AtomicU64::new(0),
+        });
+        let (tx, rx) = mq::broadcast_queue_with::<Plain, _>(cap, mq::wait::BusyWait::new());
+        let mut joins = Vec::new();
+        let mut tid = 1u32;
+        for p in 0..producers {
+            let (t, sh) = (tx.clone(), sh.clone());
+            let my = tid;
+            joins.push(std::thread::spawn(move || {
+                hooks::thread_begin(my, crate::conc::ROLE_PRODUCER, my as u64, Policy::None, &[]);
+                hist::set_enabled(false);
+                while !sh.go.load(SeqCst) {
+                    std::thread::yield_now();
+                }
+                let mut id = ((p as u64 + 1) << 40) | 1;
+                let mut n = 0u64;
+                while !sh.stop.load(SeqCst) {
+                    if t.try_send(Plain::new(id)).is_ok() {
+                        id += 1;
+                        n += 1;
+                    } else {
+                        std::hint::spin_loop();
+                    }
+                }
+                sh.sent.fetch_add(n, SeqCst);
+                drop(t);
+                hooks::thread_end();
+            }));
+            tid += 1;
+        }
+        for _ in 0..consumers {
+            let (r, sh) = (rx.clone(), sh.clone());
+            let my = tid;
+            joins.push(std::thread::spawn(move || {
+                hooks::thread_begin(my, crate::conc::ROLE_CONSUMER, my as u64, Policy::None, &[]);
+                hist::set_enabled(false);
+                while !sh.go.load(SeqCst) {
+                    std::thread::yield_now();
+                }
+                let mut n = 0u64;
+                let mut bad = 0u64;
+                while !sh.stop.load(SeqCst) {
+                    if let Ok(v) = r.try_recv() {
+                        if v.a != v.b || v.pad.iter().any(|x| *x != v.a) {
+                            bad += 1;
+                        }
+                        n += 1;
+                    }
+                }
+                sh.received.fetch_add(n, SeqCst);
+                if bad > 0 {
+                    PLAIN_TORN.fetch_add(bad, SeqCst);
+                }
+                drop(r);
+                hooks::thread_end();
+            }));
+            tid += 1;
+        }
+        drop(tx);
+        drop(rx);
+        sh.go.store(true, SeqCst);
+        let t1 = Instant::now();
+        while t1.elapsed() < Duration::from_millis(millis) && PLAIN_TORN.load(SeqCst) == torn_before {
+            if cfg!(miri) {
+                std::thread::yield_now();
+            } else {
+                std::thread::sleep(Duration::from_millis(1));
+            }
+        }
+        sh.stop.store(true, SeqCst);
+        for j in joins {
+            let _ = j.join();
+        }
+        let lost = hooks::SITE_HITS[site::R_CAS_LOST as usize].load(SeqCst) + hooks::SITE_HITS[site::R_PIN_LOST as usize].load(SeqCst) - lost_before;
+        let torn = PLAIN_TORN.load(SeqCst) - torn_before;
+        shard.stat("values_sent", sh.sent.load(SeqCst));
+        shard.stat("values_received", sh.received.load(SeqCst));
+        shard.stat("lost_position_races(R_CAS_LOST+R_PIN_LOST)", lost);
+        if torn > 0 {
+            violation(
+                "C04",
+                "payload-integrity",
+                "payload-integrity:plain-payload-changed-while-being-cloned".to_string(),
+                format!("{} clone(s) of a plain-data payload (no drop glue, hand-written slow Clone) saw the slot change between reading its first and its last field, or a delivered value was torn ({})", torn, cfgd),
+            );
+            let vs = payload::take_violations();
+            let replay = J::obj().set("engine", J::s("tight-plain")).set("cfg", J::s(cfgd.clone()));
+            shard.add_violations(vs, &replay);
+        }
+        let mut h = Hasher64::new();
+        h.add_str(&cfgd);
+        h.add((lost.min(1 << 20)) >> 6);
+        shard.evaluations += 1;
+        shard.distinct.insert(h.get());
+        if lost > 0 {
+            shard.nontrivial.insert(h.get());
+        }
+        if shard.violations.len() >= 4 {
+            break;
+        }
+        run += 1;
+    }
+    hooks::thread_end();
+    hist::set_enabled(true);
+    shard.stat("clones", PLAIN_CLONES.load(SeqCst));
+    shard.stat("slow_clones", PLAIN_SLOW.load(SeqCst));
+}
